@@ -1423,7 +1423,12 @@ async fn odd_part(cx: &mut Ctx, pki: &Pki, round: &Round, cases: &[OCase]) {
             // never silently accepted: an outcome the harness cannot classify
             cx.rep.fail(FailKind::Model, &format!("unclassified {key}"), &format!("{obs:?}"), c.replay());
         }
-        if let (Some(m), true) = (&model, judged) {
+        // (the abstract PKI of the model knows issuers and names, not extensions: the one kind whose refusal under
+        // skip-verify is the recorded finding — the certificate does not even parse for the signature check — is
+        // judged against the property above and not compared with the model)
+        let outside_model = c.skip && c.kind == "unknown-critical-extension";
+        if outside_model { cx.rep.count("odd/not-model-compared/unknown-critical-extension-under-skip-verify"); }
+        if let (Some(m), true) = (&model, judged && !outside_model) {
             cx.rep.model_compared += 1;
             let ml = &m[i];
             let real_ok = matches!(obs, Obs::Ok { .. });
